@@ -290,9 +290,14 @@ def scenario():
         # application threads descheduled (virtual time) at generated
         # scheduling points at which they hold no lock
         "stalls": st.one_of(st.just([]), st.lists(st.tuples(
-            st.sampled_from(["i:", "t:", "i:", "t:", "serve"]),
-            st.integers(1, 120),
-            st.sampled_from([0.002, 0.01, 0.05, 0.2])), max_size=6)),
+            # (urn:nfc:sn = the listen threads of the SNEP / handover
+            # servers, which carry the service name; a long stall at their
+            # first scheduling points lets the link end before they listen)
+            st.sampled_from(["i:", "t:", "i:", "t:", "serve", "urn:nfc:sn",
+                             "urn:nfc:sn"]),
+            st.one_of(st.integers(1, 120), st.integers(1, 4)),
+            st.sampled_from([0.002, 0.01, 0.05, 0.2, 1.0, 5.0])),
+            max_size=6)),
         # up to three preemptions where nfcpy has no synchronisation point
         "lines": st.one_of(st.just([]), st.just([]), st.lists(st.tuples(
             st.sampled_from(["i:", "t:", "connect-i", "connect-t", "serve"]),
@@ -439,6 +444,12 @@ def run(case, ctx):
                     ("t" in P.result or "t" in P.exc), 30.0)
         P.sched.sleep(5.0)
         P.sched.settle()
+        for _ in range(20):
+            # threads the harness itself holds back (stalls) get their turn
+            if not any(t.wait_on == "stall" for t in P.sched.alive()):
+                break
+            P.sched.sleep(1.0)
+            P.sched.settle()
         returned = {s: (s in P.result or s in P.exc) for s in "it"}
         alive = [t for t in P.sched.alive()]
         fresh_waits = set()
